@@ -322,6 +322,11 @@ class FreeEnergy(InterpolatableFunction):
         fieldList = np.full((1, phase0.numFields()), Fields((phase0,)))
         potentialEffList = np.full((1, 1), [potential0])
 
+        # An end that an earlier trace flagged as the genuine end of the phase stays
+        # flagged only if this trace is asked to go at least as far
+        keepMinFlag = self.minPossibleTemperature[1] and TMin <= self.minPossibleTemperature[0]
+        keepMaxFlag = self.maxPossibleTemperature[1] and TMax >= self.maxPossibleTemperature[0]
+
         # maximum temperature range
         TMin = max(self.minPossibleTemperature[0], TMin)
         TMax = min(self.maxPossibleTemperature[0], TMax)
@@ -432,11 +437,8 @@ class FreeEnergy(InterpolatableFunction):
             self.maxPossibleTemperature > self.minPossibleTemperature
         ), f"Temperature range negative: decrease dT from {dT}"
 
-        if min(TFullList) > TMin:
-            self.minPossibleTemperature[1] = True
-
-        if max(TFullList) < TMax:
-            self.maxPossibleTemperature[1] = True
+        self.minPossibleTemperature[1] = bool(min(TFullList) > TMin or keepMinFlag)
+        self.maxPossibleTemperature[1] = bool(max(TFullList) < TMax or keepMaxFlag)
 
         if (
             self.maxPossibleTemperature[0]
